@@ -3,8 +3,8 @@ import core, re, os
 LEVEL = 'exploration'
 RULE = ('(1) every idle function of a ~10k-function population (quick: 2000 from a seed-chosen start) is patched with the real PtrTrampoline/Apply/Unpatch '
         'and the whole text image is diffed against the pristine copy after each step, page permissions read from /proc/self/maps; (2) synthetic functions '
-        'of 6-40 bytes followed by padding or directly by another function at every entry offset in the last 40 bytes of a page; (2a) pairs of tiny functions 14-32 bytes apart, both mocked and un-mocked in five orders, image compared with a byte model after every install and removal; (3) memory.WriteTo sweeps '
-        'over offsets -64..+8 around three page boundaries x lengths 1..80 and ~1-2 pages; (4) the same binary re-run under strace: every mprotect event on '
+        'of 6-40 bytes followed by padding or directly by another function at every entry offset in the last 40 bytes of a page; (2a) pairs of tiny functions 14-32 bytes apart, both mocked and un-mocked in five orders, image compared with a byte model after every install and removal; (2c) padded placeholders filled to their last padding byte by a first trampoline and then handed to a target that needs more room; (3) memory.WriteTo sweeps '
+        'over offsets -64..+8 around three page boundaries x lengths 1..80 and ~1-2 pages; (3b) six goroutines writing disjoint ranges of two pages (one straddling) through the text writer at once; (4) the same binary re-run under strace: every mprotect event on '
         'image/synthetic pages must carry PROT_EXEC and the last one per page must be R|X; distinct = (part, size class, page-offset / straddle / pages-touched) classes')
 
 
